@@ -181,8 +181,8 @@ def model_line(case, rec, dry):
         return f"SAVE mode={mode} n={n1} m={j + 1} kind=fault k={8 + n1 + j} eff=0 del=ok"
     if inj[0] == 'line':
         li = rec['line_info']
-        if not li:
-            return None
+        if not li or W.line_after_region(li):
+            return None     # (after the guarded region: outside the model; the monitor still judges the case)
         if not W.line_in_try(li):
             k = 0
         else:
